@@ -113,7 +113,7 @@ def nthroot(x, n):
 def _sinpi_real(x):
     if x < 0:
         return -_sinpi_real(-x)
-    n, r = divmod(x, 0.5)
+    n, r = divmod(math.fmod(x, 2.0), 0.5)
     r *= pi
     n %= 4
     if n == 0: return math.sin(r)
@@ -124,7 +124,7 @@ def _sinpi_real(x):
 def _cospi_real(x):
     if x < 0:
         x = -x
-    n, r = divmod(x, 0.5)
+    n, r = divmod(math.fmod(x, 2.0), 0.5)
     r *= pi
     n %= 4
     if n == 0: return math.cos(r)
@@ -135,7 +135,7 @@ def _cospi_real(x):
 def _sinpi_complex(z):
     if z.real < 0:
         return -_sinpi_complex(-z)
-    n, r = divmod(z.real, 0.5)
+    n, r = divmod(math.fmod(z.real, 2.0), 0.5)
     z = pi*complex(r, z.imag)
     n %= 4
     if n == 0: return cmath.sin(z)
@@ -146,7 +146,7 @@ def _sinpi_complex(z):
 def _cospi_complex(z):
     if z.real < 0:
         z = -z
-    n, r = divmod(z.real, 0.5)
+    n, r = divmod(math.fmod(z.real, 2.0), 0.5)
     z = pi*complex(r, z.imag)
     n %= 4
     if n == 0: return cmath.cos(z)
